@@ -39,6 +39,8 @@ type Family struct {
 	Timeout time.Duration
 	// Isolated families run every case in its own fresh process.
 	Isolated bool
+	// Race (Isolated families only): the case's process is the race-detector build even if the check as a whole is not.
+	Race bool
 	// Exhaustive marks a family that enumerates a finite space completely.
 	Exhaustive bool
 }
